@@ -1,7 +1,7 @@
 (** Property C01 — theorems only.  [run] is the reference semantics (Core.Sem); the extracted [run] is
     the oracle of the failing-input search in harness/props/C01.py. *)
 From Coq Require Import ZArith List Bool.
-From Core Require Import Syntax Sem Equiv.
+From Core Require Import Syntax Sem Equiv PartialEval PartialEvalSound Subst ShiftLoop.
 Import ListNotations.
 Local Open Scope Z_scope.
 
@@ -103,3 +103,34 @@ Theorem C01_lift_if_out_of_for : forall i lo hi c a par st st' bc,
   exec_list [If c [For i lo hi a par] []] st = Ok st'.
 Proof. exact rule_lift_if_out_of_for. Qed.
 Print Assumptions C01_lift_if_out_of_for.
+
+(** shift_loop: [shift_loop_rw] is the term the implementation builds (same iteration symbol, bounds
+    new_lo and new_lo + (hi - lo), every read of i replaced by i + (lo - new_lo)).  It refines the loop
+    when both bounds are index expressions over variables V that the body does not re-bind and new_lo is
+    evaluable wherever lo is.  (Bounds reading configuration are outside this theorem; the implementation
+    refuses them when the body writes the field, repaired defect C01-shift_loop-config-bound.) *)
+Theorem C01_shift_loop : forall i lo hi nlo V body par,
+  ~ In i V -> ShiftLoop.index_over V lo = true -> ShiftLoop.index_over V nlo = true ->
+  forallb (Subst.okbind (ShiftLoop.okb i V)) body = true ->
+  (forall st l, eval st lo = Ok (VInt l) -> exists nl, eval st nlo = Ok (VInt nl)) ->
+  refines [For i lo hi body par] [ShiftLoop.shift_loop_rw i lo hi nlo body par].
+Proof.
+  intros. apply ShiftLoop.rule_shift_loop with (V := V); auto using ShiftLoop.index_over_depends.
+Qed.
+Print Assumptions C01_shift_loop.
+
+(** the substitution lemma behind shift_loop / divide_loop / unroll / partial_eval, in the form the
+    rules use it: running body[x := c] in the transformed environment simulates running body *)
+Theorem C01_substitution : forall x c cv okb T (Good : env -> Prop),
+  okb x = false ->
+  (forall st, Good (s_env st) -> eval st c = Ok cv) ->
+  (forall st, Good (s_env st) -> eval_view st c = Err TypeErr) ->
+  (forall e y, y <> x -> lookup y (T e) = lookup y e) ->
+  (forall e, match lookup x (T e) with Some (BView _) => False | _ => True end) ->
+  (forall y b e, okb y = true -> T ((y, b) :: e) = (y, b) :: T e) ->
+  (forall y b e, okb y = true -> Good e -> Good ((y, b) :: e)) ->
+  forall body st, forallb (Subst.okbind okb) body = true -> Subst.inv x cv T Good st ->
+  PartialEvalSound.rsim (Subst.SR x cv T Good)
+    (exec_list body st) (exec_list (PartialEval.pe_ss x c body) (Subst.tst T st)).
+Proof. exact Subst.body_sub. Qed.
+Print Assumptions C01_substitution.
